@@ -127,9 +127,9 @@ def subchecks(tier):
     q = tier == "quick"
     return [
         Sub("history", None, test, 48 if q else 1500, kind="machine",
-            machine=factory, steps=30, shards=8 if q else 16, max_rounds=3,
+            machine=factory, steps=30, shards=8 if q else 16, max_rounds=3, shrink_quick=False,
             generic=designed_histories()),
         Sub("history_aggressive", None, test, 48 if q else 1500,
             kind="machine", machine=factory_aggr, steps=40,
-            shards=8 if q else 16, max_rounds=3),
+            shards=8 if q else 16, max_rounds=3, shrink_quick=False),
     ]
